@@ -48,6 +48,8 @@ func checkC12(c *Ctx, r *Report) {
 	r.Rule("R12b", "node storage (fields.d / fields.a) is written only by methods of fields, on nodes constructed in the same function, or by the merge functions", 10)
 	nodeWriters(c, r)
 
+	atomicSetRule(c, r)
+
 	// R12e: handles stay live across removals — the node's own mutators move stored values, they
 	// never replace one by a copy (a copied sub-config detaches every handle taken before)
 	r.Rule("R12e", "the methods of fields that rearrange stored values (everything except append, which takes over values from another node) never store the result of cpy: a moved sub-config keeps its identity", 5)
@@ -356,4 +358,79 @@ func nodeWriters(c *Ctx, r *Report) {
 		})
 	}
 	_ = fmt.Sprint
+}
+
+// atomicSetRule (R12f): a write through a path either happens completely or leaves the tree as it was. The
+// walker builds the missing intermediate nodes as a detached sub-tree and attaches it with its last step:
+// every field.SetValue call of cfgPath.SetValue whose target node is not a node created in this very call (the
+// live tree) must be the last thing that can fail — no failing return other than that call's own error is
+// reachable after it. A walker that creates intermediates in the live tree on the way down leaves them behind
+// when a later step is rejected (index above MaxIdx, a primitive in the way).
+func atomicSetRule(c *Ctx, r *Report) {
+	r.Rule("R12f", "cfgPath.SetValue writes into nodes of the live tree only with its last fallible step: after a field.SetValue on a node that was not created in this call no other failure can be returned", 1)
+	fn := c.Method("", "cfgPath", "SetValue")
+	name := c.FnName(fn)
+	newFn := c.Func("", "New")
+	fresh := func(elem ssa.Value) bool {
+		w := wrappedConfig(elem)
+		if w == nil {
+			return false
+		}
+		srcs := Sources(w)
+		if len(srcs) == 0 {
+			return false
+		}
+		for _, s := range srcs {
+			call, ok := s.(*ssa.Call)
+			if !ok || !IsCallTo(call, newFn) {
+				return false
+			}
+		}
+		return true
+	}
+	n := 0
+	for _, ci := range CallsIn(fn, false) {
+		cc := ci.Common()
+		if !cc.IsInvoke() || cc.Method.Name() != "SetValue" || len(cc.Args) != 3 {
+			continue
+		}
+		n++
+		call, _ := ci.(*ssa.Call)
+		elem := cc.Args[1]
+		if fresh(elem) {
+			r.OK("R12f", name, "write into a node", c.Pos(ci.Pos()), "the target node was created in this call (detached until the last step)")
+			continue
+		}
+		// a write into the live tree: every return reachable from here is successful or returns this call's own result
+		bad := ""
+		if loopOf(fn, ci.(ssa.Instruction).Block()) != nil {
+			bad = "the write is repeated in a loop: a later round (or the step after the loop) can fail"
+		}
+		for _, ret := range Returns(fn) {
+			if !(ret.Block() == ci.(ssa.Instruction).Block() || reachableFromEdge(nil, ci.(ssa.Instruction).Block(), ret.Block(), nil)) {
+				continue
+			}
+			if len(ret.Results) == 0 || IsNilConst(RetVal(ret, len(ret.Results)-1)) {
+				continue // returns success
+			}
+			own := false
+			if call != nil {
+				for _, s := range Sources(RetVal(ret, len(ret.Results)-1)) {
+					if s == ssa.Value(call) {
+						own = true
+					}
+					if ex, ok := s.(*ssa.Extract); ok && ex.Tuple == ssa.Value(call) {
+						own = true
+					}
+				}
+			}
+			if !own {
+				bad = "a failure can be returned at " + c.Pos(ret.Pos()) + " after this write into the live tree"
+			}
+		}
+		r.Check(bad == "", "R12f", name, "write into a node", c.Pos(ci.Pos()), "write into the live tree as the last fallible step", "the path writer modifies a node of the live tree and can still fail afterwards ("+bad+"): a rejected write leaves intermediate nodes (and list padding) behind")
+	}
+	if n == 0 {
+		r.add("R12f", name, "write into a node", c.Pos(fn.Pos()), Undecided, true, "no field.SetValue call found in cfgPath.SetValue")
+	}
 }
